@@ -99,7 +99,71 @@ def _cases(rng, n):
     _cases_t4(rng, n, reqs, want)  # --- T4
     _cases_t14(rng, n, reqs, want)  # --- T14
     _cases_t7(rng, n, reqs, want)  # --- T7
+    _cases_t9(rng, n, reqs, want)  # --- T9
     return reqs, want
+
+
+# --- T9: Python numbers that may be complex (dyadic values: float arithmetic is exact on them), str helpers on ASCII strings, the two
+# regular expressions of the Pauli term parser, dict(pairs), indexing / comprehension / loop that may raise
+def _cases_t9(rng, n, reqs, want):
+    import re
+    from fractions import Fraction
+
+    def R(f):
+        f = Fraction(f)
+        return str(f.numerator) if f.denominator == 1 else f"{f.numerator}/{f.denominator}"
+
+    def dy():
+        return Fraction(rng.randrange(-40, 41), 2 ** rng.randrange(0, 5))
+
+    def num():
+        c = rng.random()
+        if c < 0.3:
+            return int(rng.randrange(-5, 6))
+        if c < 0.6:
+            return float(dy())
+        return complex(float(dy()), float(rng.choice([Fraction(0), dy()])))
+
+    def enc(z):
+        if isinstance(z, complex):
+            return {"re": R(Fraction(z.real)), "im": R(Fraction(z.imag))}
+        return {"re": R(Fraction(z))}
+
+    for _ in range(n):
+        a, b = num(), num()
+        reqs.append(("t9_num", {"a": enc(a), "b": enc(b)}))
+        want.append(("raw", {"add": enc(a + b), "mul": enc(a * b), "jmul": enc(1j * a), "re": R(Fraction(a.real)),
+                             "im": R(Fraction(a.imag)), "iscomplex": isinstance(a, complex), "truthy": bool(a)}))
+    alpha = "XYZIxyzi0123456789 **()+-.jab\n"
+    strs = ["", " ", "*", "X0", "x12", "I3\n", "Z1\n\n", "Y", "Y-1", "A1", "X1a", " X1", "X 1", "(1+2j)", "(", ")", "()", "a * b", " a*b ", "a  *  b *c",
+            "* a", "a *", " * ", "**", "  ", "2.0*I", "(1+2j) * Z0*X12", "i0", "z007", "X0\n", "\n", "X\n"]
+    strs += ["".join(rng.choice(alpha) for _ in range(rng.randrange(0, 9))) for _ in range(2 * n)]
+    for s in strs:
+        p = rng.choice(["(", ")", " ", "", "X", "I", " *", "()", s[:1], s[-1:], s])
+        m = re.match(r"([XYZI])([0-9]+)$", s, re.I)
+        reqs.append(("t9_str", {"s": s, "p": p}))
+        want.append(("raw", {"startswith": s.startswith(p), "endswith": s.endswith(p), "replace": s.replace(" ", p), "strip": s.strip(p),
+                             "upper": s.upper(), "resplit": re.split(r"\ *\*\ *", s),
+                             "rematch": [m.group(1), m.group(2)] if m else None}))
+    for _ in range(n):
+        ps = [(rng.randrange(0, 4), rng.choice(["X", "Y", "1", "12", "-3", "a", ""])) for _ in range(rng.randrange(0, 6))]
+        i = rng.randrange(-7, 7)
+
+        def ex(thunk, conv):
+            try:
+                return {"ok": conv(thunk())}
+            except (ValueError, IndexError) as e:
+                return {"exc": type(e).__name__}
+
+        def fold():
+            acc = 1
+            for k, v in ps:
+                acc = acc * 3 + int(v) + k
+            return acc
+        reqs.append(("t9_dict", {"pairs": [[k, v] for k, v in ps], "i": i}))
+        want.append(("raw", {"dict": [[str(k), v] for k, v in dict(ps).items()], "index": ex(lambda: ps[i], lambda p: [str(p[0]), p[1]]),
+                             "map": ex(lambda: [int(v) for _k, v in ps], lambda l: [str(x) for x in l]), "fold": ex(fold, str)}))
+# --- end T9
 
 
 def _cases_t2(rng, n, reqs, want):
